@@ -9,6 +9,16 @@ CHECKS = {
     text="Mapping.tla transcribes rdp.mapping loop by loop; TLC proves machine = MapSpec over every index subset / position list / row order for n<=8 (exhaustive), emits each behaviour and the harness replays all of them into the real functions (exact equality); reductions recorded from the five simplifiers on real curves are validated by Trace_Mapping. Exhaustive over the bounded structure space, sampled over real-valued curves.",
     note="bounded n for exhaustiveness; TLC/SANY/CommunityModules, CPython, NumPy trusted; mapping's documented precondition (ascending positions) assumed",
     ref="5/C07"),
+ "C17": dict(
+    technique="TLC evaluates the exact-rational geometric definitions (Geometry.tla) and their algebraic laws over the complete integer grid and emits every case; replay into the real primitives; TLC trace validation of rank on tied vectors",
+    text="Geometry.tla is the executable definition (3-case point-segment distance, line distance, IoU, squared Menger curvature, rank); TLC checks its laws (segment>=line, zero iff on segment, IoU symmetric/in [0,1], Menger symmetric/zero iff collinear) on every grid case and emits each with its exact expected value; all cases are replayed into linear_fit/knee_ranking/menger/postprocessing. Exhaustive over the 0..3 (thorough 0..4, plus scaled/translated copy) grid; weak fit of the technique (closed-form functions), stated in DESIGN.",
+    note="small exact integer domain, sqrt applied last; tolerance rel 1e-9; triangle_area compared in absolute value",
+    ref="5/C17"),
+ "C18": dict(
+    technique="TLC model checking of the monotone-chain and Graham-scan machines (Hull.tla) against the brute-force hull on every grid curve / point subset, same run emits behaviours replayed into convex_hull.*; negative instance (unguarded scan must underflow)",
+    text="Hull.tla transcribes graham_scan_lower/upper and graham_scan (angular sort with nearer-first ties, pop rule with stack guard) action by action; invariants say chain = brute-force hull chain with strict turns, Graham result contains every extreme point, only boundary points, and equals the clockwise vertex cycle in general position; all 14.9k (thorough: ~10^5) behaviours are replayed into the code with exact index comparison.",
+    note="integer grid coordinates (orientation exact in binary64); bounded n; start vertex convention documented",
+    ref="5/C18"),
 }
 
 PENDING = {}
